@@ -1,6 +1,7 @@
 package props
 
 import (
+	stdxml "encoding/xml"
 	"encoding/base64"
 	"fmt"
 	"net/url"
@@ -225,3 +226,5 @@ func b64dec(s string) ([]byte, error) {
 }
 
 func base64Std(b []byte) string { return base64.StdEncoding.EncodeToString(b) }
+
+func xmlStdUnmarshal(b []byte, v any) error { return stdxml.Unmarshal(b, v) }
